@@ -1,2 +1,1077 @@
-(* ThreadedProofs.v — being written *)
-From Lasso Require Import Base Arena ArenaProofs Rodeo RodeoInv RodeoProofs.
+(* ThreadedProofs.v — ThreadedRodeo, used by one thread, refines the same abstract interner as
+   Rodeo ("a duplicate-free list of strings, key = position") via the invariant TInv. *)
+From Lasso Require Import Base Arena ArenaProofs Rodeo RodeoInv RodeoProofs ThreadedInv.
+From Coq Require Import Permutation.
+
+(* ---------- generic list facts ---------- *)
+
+Lemma nth_error_ext_eq {A} (l l' : list A) :
+  (forall i, nth_error l i = nth_error l' i) -> l = l'.
+Proof.
+  revert l'; induction l as [|x l IH]; intros [|y l'] H; auto.
+  - specialize (H 0%nat); discriminate.
+  - specialize (H 0%nat); discriminate.
+  - pose proof (H 0%nat) as H0. simpl in H0. inversion H0; subst. f_equal.
+    apply IH. intros i. exact (H (S i)).
+Qed.
+
+Lemma set_nth_length {A} (l : list A) n x : length (set_nth n x l) = length l.
+Proof. revert n; induction l as [|y l IH]; intros [|n]; simpl; auto. Qed.
+
+Lemma nth_error_set_nth_eq {A} (l : list A) n x :
+  (n < length l)%nat -> nth_error (set_nth n x l) n = Some x.
+Proof.
+  revert n; induction l as [|y l IH]; intros [|n] H; simpl in *; try lia; auto.
+  apply IH. lia.
+Qed.
+
+Lemma nth_error_set_nth_neq {A} (l : list A) n m x :
+  n <> m -> nth_error (set_nth n x l) m = nth_error l m.
+Proof.
+  revert n m; induction l as [|y l IH]; intros [|n] [|m] H; simpl; auto; try congruence.
+Qed.
+
+Lemma filter_all {A} (f : A -> bool) l : (forall x, In x l -> f x = true) -> filter f l = l.
+Proof.
+  induction l as [|x l IH]; simpl; auto. intros H.
+  rewrite (H x) by auto. f_equal. apply IH. auto.
+Qed.
+
+(* a key -> value list whose keys are distinct and are exactly the numbers below n has n entries *)
+Lemma dense_keys_length {B} (ts : list (N * B)) (n : nat) :
+  NoDup (map fst ts) ->
+  (forall k, In k (map fst ts) <-> (N.to_nat k < n)%nat) ->
+  length ts = n.
+Proof.
+  intros Hnd Hk.
+  assert (Hnd' : NoDup (map N.to_nat (map fst ts))).
+  { apply FinFun.Injective_map_NoDup; auto. intros a b. apply N2Nat.inj. }
+  assert (H1 : incl (map N.to_nat (map fst ts)) (seq 0 n)).
+  { intros i Hi. apply in_map_iff in Hi as (k & <- & Hin). apply in_seq. apply Hk in Hin. lia. }
+  assert (H2 : incl (seq 0 n) (map N.to_nat (map fst ts))).
+  { intros i Hi. apply in_seq in Hi. apply in_map_iff. exists (N.of_nat i).
+    split; [apply Nat2N.id|]. apply Hk. rewrite Nat2N.id. lia. }
+  pose proof (NoDup_incl_length Hnd' H1) as L1.
+  pose proof (NoDup_incl_length (seq_NoDup n 0) H2) as L2.
+  rewrite !map_length in *. rewrite seq_length in *. lia.
+Qed.
+
+Lemma all_some_map_Some {A} (l : list A) : all_some (map Some l) = Some l.
+Proof. induction l as [|x l IH]; simpl; auto. now rewrite IH. Qed.
+
+Lemma nth_error_repeat_lt {A} (x : A) n i : (i < n)%nat -> nth_error (repeat x n) i = Some x.
+Proof. revert i; induction n as [|n IH]; intros [|i] H; simpl; try lia; auto. apply IH. lia. Qed.
+
+Lemma nth_error_seq_some a n i j : nth_error (seq a n) i = Some j -> j = (a + i)%nat.
+Proof.
+  revert a i; induction n as [|n IH]; intros a [|i] H; simpl in H; try discriminate.
+  - inversion H; lia.
+  - apply IH in H. lia.
+Qed.
+
+(* a symmetric relation on ordered pairs does not care about the order of the list *)
+Lemma FOP_perm {A} (R : A -> A -> Prop) l l' :
+  (forall x y, R x y -> R y x) -> Permutation l l' -> ForallOrdPairs R l -> ForallOrdPairs R l'.
+Proof.
+  intros Hsym Hp. induction Hp as [|x l l' Hp IH|x y l|l l' l'' Hp1 IH1 Hp2 IH2]; intros H; auto.
+  - inversion H; subst. constructor; auto. eapply Permutation_Forall; eauto.
+  - inversion H as [|? ? Hy Hrest]; subst. inversion Hrest as [|? ? Hx Hl]; subst.
+    inversion Hy; subst.
+    constructor; [constructor; auto|constructor; auto].
+Qed.
+
+Lemma refs_disjoint_sym r1 r2 : refs_disjoint r1 r2 -> refs_disjoint r2 r1.
+Proof.
+  destruct r1, r2; simpl; auto.
+  intros [H|[H|H]]; [left; congruence|right; right; exact H|right; left; exact H].
+Qed.
+
+Lemma contents_map_iff {X} (f : X -> sref) (g : X -> str) a l :
+  contents (map f l) a = Some (map g l) <-> Forall (fun x => read a (f x) = Some (g x)) l.
+Proof.
+  unfold contents. induction l as [|x l IH]; simpl.
+  - split; auto.
+  - split.
+    + intros H. destruct (read a (f x)) as [s|] eqn:E; [|discriminate].
+      destruct (all_some (map (read a) (map f l))) as [r|] eqn:E2; [|discriminate].
+      inversion H; subst. constructor; auto. apply IH. reflexivity.
+    + intros H. inversion H as [|? ? Hx Hl]; subst. rewrite Hx. apply IH in Hl. rewrite Hl.
+      reflexivity.
+Qed.
+
+(* re-ordering a string table together with its contents *)
+Lemma strs_ok_perm {X} (f : X -> sref) (g : X -> str) a l l' :
+  Permutation l l' -> strs_ok (map f l) a (map g l) -> strs_ok (map f l') a (map g l').
+Proof.
+  intros Hp (H1 & H2 & H3 & H4). split; [|split; [|split]].
+  - eapply Permutation_Forall; [apply Permutation_map; exact Hp|exact H1].
+  - eapply FOP_perm; [apply refs_disjoint_sym|apply Permutation_map; exact Hp|exact H2].
+  - apply contents_map_iff. apply contents_map_iff in H3. eapply Permutation_Forall; eauto.
+  - eapply Permutation_NoDup; [apply Permutation_map; exact Hp|exact H4].
+Qed.
+
+(* in a list sorted by its keys 0..n-1, looking a key up is indexing *)
+Lemma sorted_lookup {X B} (fk : X -> N) (g : X -> B) (tl : list X) n k b :
+  map fk tl = map N.of_nat (seq 0 n) ->
+  (In (k, b) (map (fun x => (fk x, g x)) tl) <-> nth_error (map g tl) (N.to_nat k) = Some b).
+Proof.
+  intros Hk.
+  assert (Hkey : forall i x, nth_error tl i = Some x -> fk x = N.of_nat i).
+  { intros i x Hx. apply (map_nth_error fk) in Hx. rewrite Hk, nth_error_map in Hx.
+    destruct (nth_error (seq 0 n) i) as [j|] eqn:Ej; [|discriminate]. simpl in Hx.
+    apply nth_error_seq_some in Ej. simpl in Ej. congruence. }
+  split.
+  - intros Hin. apply in_map_iff in Hin as (x & Heq & Hx). injection Heq as <- <-.
+    apply In_nth_error in Hx as (i & Hi). rewrite (Hkey _ _ Hi), Nat2N.id.
+    now apply map_nth_error.
+  - intros Hn. rewrite nth_error_map in Hn.
+    destruct (nth_error tl (N.to_nat k)) as [x|] eqn:Ex; [|discriminate].
+    simpl in Hn. injection Hn as <-. apply in_map_iff. exists x.
+    split; [|eapply nth_error_In; eauto].
+    f_equal. rewrite (Hkey _ _ Ex). apply N2Nat.id.
+Qed.
+
+Lemma perm_in_iff {X Y} (f : X -> Y) l l' y :
+  Permutation l l' -> (In y (map f l) <-> In y (map f l')).
+Proof.
+  intros Hp. split; apply Permutation_in; apply Permutation_map; auto. now apply Permutation_sym.
+Qed.
+
+(* ---------- the key check of the ThreadedRodeo deserialiser ---------- *)
+
+Lemma keys_dense_spec l : forall seen,
+  keys_dense l seen = true <->
+  NoDup (map snd l) /\ (forall k, In k (map snd l) -> nth_error seen (N.to_nat k) = Some false).
+Proof.
+  induction l as [|(s & k) l IH]; intros seen; cbn [keys_dense map snd].
+  - split; [intros _; split; [constructor|intros k []]|auto].
+  - destruct (k <? N.of_nat (length seen)) eqn:Elt.
+    + apply N.ltb_lt in Elt.
+      destruct (nth_error seen (N.to_nat k)) as [[|]|] eqn:En.
+      * split; [discriminate|]. intros (_ & H). specialize (H k (or_introl eq_refl)). congruence.
+      * rewrite IH. split.
+        -- intros (Hnd & Hall). split.
+           ++ constructor; auto. intros Hin. apply Hall in Hin.
+              rewrite nth_error_set_nth_eq in Hin by lia. discriminate.
+           ++ intros k' [<-|Hin]; auto. pose proof (Hall _ Hin) as Hk'.
+              destruct (N.eq_dec k k') as [<-|Hne].
+              ** rewrite nth_error_set_nth_eq in Hk' by lia. discriminate.
+              ** rewrite nth_error_set_nth_neq in Hk' by lia. exact Hk'.
+        -- intros (Hnd & Hall). inversion Hnd as [|? ? Hnotin Hnd']; subst. split; auto.
+           intros k' Hin. rewrite nth_error_set_nth_neq.
+           ++ apply Hall. now right.
+           ++ intros Heq. apply N2Nat.inj in Heq. subst k'. contradiction.
+      * split; [discriminate|]. intros (_ & H). specialize (H k (or_introl eq_refl)). congruence.
+    + apply N.ltb_ge in Elt. split; [discriminate|]. intros (_ & H).
+      specialize (H k (or_introl eq_refl)).
+      assert (nth_error seen (N.to_nat k) = None) by (apply nth_error_None; lia). congruence.
+Qed.
+
+Lemma keys_dense_init l n :
+  keys_dense l (repeat false n) = true <->
+  NoDup (map snd l) /\ (forall k, In k (map snd l) -> (N.to_nat k < n)%nat).
+Proof.
+  rewrite keys_dense_spec. split; intros (H1 & H2); split; auto; intros k Hk.
+  - specialize (H2 k Hk).
+    assert (H : nth_error (repeat false n) (N.to_nat k) <> None) by congruence.
+    apply nth_error_Some in H. now rewrite repeat_length in H.
+  - apply nth_error_repeat_lt. auto.
+Qed.
+
+Lemma dense_keys_perm (ks : list N) :
+  NoDup ks -> (forall k, In k ks -> (N.to_nat k < length ks)%nat) ->
+  Permutation ks (map N.of_nat (seq 0 (length ks))).
+Proof.
+  intros Hnd Hlt. apply NoDup_Permutation_bis; auto.
+  - rewrite map_length, seq_length. lia.
+  - intros k Hk. apply in_map_iff. exists (N.to_nat k). split; [apply N2Nat.id|].
+    apply in_seq. specialize (Hlt k Hk). lia.
+Qed.
+
+(* the check accepts exactly the documents whose keys are a permutation of 0..n-1 *)
+Theorem keys_dense_perm_iff l :
+  keys_dense l (repeat false (length l)) = true <->
+  Permutation (map snd l) (map N.of_nat (seq 0 (length l))).
+Proof.
+  rewrite keys_dense_init. split.
+  - intros (Hnd & Hlt). rewrite <- (map_length snd l). apply dense_keys_perm; auto.
+    intros k Hk. rewrite map_length. auto.
+  - intros Hp. apply Permutation_sym in Hp. split.
+    + eapply Permutation_NoDup; [exact Hp|].
+      apply FinFun.Injective_map_NoDup; [|apply seq_NoDup]. intros a b. apply Nat2N.inj.
+    + intros k Hk. eapply Permutation_in in Hk; [|apply Permutation_sym; exact Hp].
+      apply in_map_iff in Hk as (i & <- & Hi). apply in_seq in Hi. rewrite Nat2N.id. lia.
+Qed.
+
+(* the counter computed by the loop: one above the highest key *)
+Lemma next_key_spec ks : forall nx r,
+  fold_left (fun nx k => if nx <=? k then k + 1 else nx) ks nx = r ->
+  nx <= r /\ (forall k, In k ks -> k < r) /\ (r = nx \/ (0 < r /\ In (r - 1) ks)).
+Proof.
+  induction ks as [|k ks IH]; intros nx r Hr; cbn [fold_left] in Hr.
+  - subst r. split; [lia|]. split; [intros k []|auto].
+  - apply IH in Hr. destruct Hr as (H1 & H2 & H3).
+    destruct (nx <=? k) eqn:E; [apply N.leb_le in E|apply N.leb_gt in E].
+    + split; [lia|]. split.
+      * intros k' [<-|Hin]; [lia|auto].
+      * destruct H3 as [H3|(H3 & H4)].
+        -- right. split; [lia|]. left. lia.
+        -- right. split; auto. now right.
+    + split; [lia|]. split.
+      * intros k' [<-|Hin]; [lia|auto].
+      * destruct H3 as [H3|(H3 & H4)]; [left; auto|right; split; auto]. now right.
+Qed.
+
+(* a string that fits into the (only) block goes there *)
+Lemma lf_store_head_fits a b s :
+  blocks a = [b] -> bused b + slen s <= bcap b ->
+  exists a' ref b', lf_store a s = (a', Ok ref) /\ blocks a' = [b'] /\ bcap b' = bcap b /\
+                    bused b' = bused b + slen s.
+Proof.
+  intros Hb Hfit. unfold lf_store, lf_store_gen. destruct s as [|c s0].
+  - exists a, REmpty, b. rewrite slen_nil. split; auto. split; auto. split; auto. lia.
+  - cbv iota. remember (c :: s0) as s eqn:Hs. rewrite Hb. cbn [lf_first_fit].
+    replace (bused b + slen s <=? bcap b) with true by (symmetry; apply N.leb_le; exact Hfit).
+    unfold push_slice. eexists _, _, _. split; [reflexivity|]. simpl. auto.
+Qed.
+
+Lemma list_eq_nth {A} (cs cs' : list A) :
+  length cs = length cs' ->
+  (forall i, (i < length cs)%nat -> nth_error cs i = nth_error cs' i) -> cs = cs'.
+Proof.
+  intros Hl H. apply nth_error_ext_eq. intros i.
+  destruct (Nat.lt_ge_cases i (length cs)); auto.
+  rewrite (proj2 (nth_error_None cs i)), (proj2 (nth_error_None cs' i)); auto; lia.
+Qed.
+
+Lemma in_combine_seq {A} (l : list A) : forall a k x,
+  In (k, x) (combine (map N.of_nat (seq a (length l))) l) <->
+  exists i, k = N.of_nat (a + i) /\ nth_error l i = Some x.
+Proof.
+  induction l as [|y l IH]; intros a k x; simpl.
+  - split; [tauto|]. intros (i & _ & H). destruct i; discriminate.
+  - rewrite IH. split.
+    + intros [Heq|(i & Hk & Hi)].
+      * injection Heq as <- <-. exists 0%nat. split; [f_equal; lia|reflexivity].
+      * exists (S i). split; auto. rewrite Hk. f_equal. lia.
+    + intros ([|i] & Hk & Hi); simpl in Hi.
+      * left. injection Hi as <-. replace (a + 0)%nat with a in Hk by lia. now subst.
+      * right. exists i. split; auto. rewrite Hk. f_equal. lia.
+Qed.
+
+Lemma trodeo_eta t : mkT (tmap t) (tstrs t) (tkey t) (tar t) = t.
+Proof. now destruct t. Qed.
+
+Section Proofs.
+  Variable hash : str -> N.
+  Variable cand : N -> N -> bool.
+  Variable growf : N -> bool.
+  Variable keycap : N.
+  Hypothesis cand_refl : forall h, cand h h = true.
+
+  Notation TInv := (TInv keycap).
+  Notation RodeoInv := (RodeoInv hash keycap).
+  Notation table_ok := (table_ok hash).
+  Notation t_intern := (t_intern keycap).
+  Notation t_intern_static := (t_intern_static keycap).
+  Notation t_into_reader := (t_into_reader hash cand growf).
+  Notation rebuild := (rebuild hash cand growf).
+  Notation tlookup := (tlookup cand).
+  Notation tinsert := (tinsert hash growf).
+  Notation eq_obj := (eq_obj keycap).
+
+  (* ---------- the invariant with its witness made explicit ---------- *)
+
+  (* the two maps against the dense key -> reference table [refs] *)
+  Definition maps_ok (tm : list (sref * N)) (ts : list (N * sref)) (refs : list sref) : Prop :=
+    NoDup (map fst ts) /\
+    (forall k r, In (k, r) ts <-> nth_error refs (N.to_nat k) = Some r) /\
+    NoDup (map snd tm) /\
+    (forall r k, In (r, k) tm <-> In (k, r) ts).
+
+  Definition TW (t : trodeo) (cs : list str) (refs : list sref) : Prop :=
+    ArenaInv (tar t) /\ strs_ok refs (tar t) cs /\ maps_ok (tmap t) (tstrs t) refs /\
+    N.of_nat (length cs) = N.min (tkey t) keycap.
+
+  Lemma TInv_TW t cs : TInv t cs <-> exists refs, TW t cs refs.
+  Proof.
+    unfold ThreadedInv.TInv, TW, maps_ok. split.
+    - intros (Ha & refs & Hs & H1 & H2 & H3 & H4 & H5). exists refs.
+      exact (conj Ha (conj Hs (conj (conj H1 (conj H2 (conj H3 H4))) H5))).
+    - intros (refs & Ha & Hs & (H1 & H2 & H3 & H4) & H5). split; [exact Ha|]. exists refs.
+      exact (conj Hs (conj H1 (conj H2 (conj H3 (conj H4 H5))))).
+  Qed.
+
+  (* the witness is unique: it is determined by the key -> string map *)
+  Lemma TW_refs_unique t cs cs' refs refs' : TW t cs refs -> TW t cs' refs' -> refs = refs'.
+  Proof.
+    intros (_ & _ & (_ & H2 & _) & _) (_ & _ & (_ & H2' & _) & _).
+    apply nth_error_ext_eq. intros i.
+    destruct (nth_error refs i) as [r|] eqn:E.
+    - rewrite <- (Nat2N.id i) in E. apply H2, H2' in E. rewrite Nat2N.id in E. now rewrite E.
+    - destruct (nth_error refs' i) as [r|] eqn:E'; auto.
+      rewrite <- (Nat2N.id i) in E'. apply H2', H2 in E'. rewrite Nat2N.id in E'. congruence.
+  Qed.
+
+  Lemma maps_keys tm ts refs k :
+    maps_ok tm ts refs -> (In k (map fst ts) <-> (N.to_nat k < length refs)%nat).
+  Proof.
+    intros (_ & H2 & _). split.
+    - intros Hin. apply in_map_iff in Hin as ((k0 & r) & Hk & Hin). simpl in Hk. subst k0.
+      apply H2 in Hin. apply nth_error_Some. congruence.
+    - intros Hlt. destruct (nth_error refs (N.to_nat k)) as [r|] eqn:E.
+      + apply H2 in E. apply in_map_iff. exists (k, r). auto.
+      + apply nth_error_None in E. lia.
+  Qed.
+
+  Lemma maps_length tm ts refs : maps_ok tm ts refs -> length ts = length refs.
+  Proof.
+    intros H. apply dense_keys_length; [apply H|]. intros k. eapply maps_keys; eauto.
+  Qed.
+
+  Lemma read_refs refs a cs k r :
+    contents refs a = Some cs -> nth_error refs (N.to_nat k) = Some r ->
+    read a r = nth_error cs (N.to_nat k) /\ (N.to_nat k < length cs)%nat.
+  Proof.
+    intros Hc Hn. pose proof (key_str_contents _ _ _ k Hc) as H. unfold key_str in H.
+    rewrite Hn in H. split; auto.
+    rewrite (contents_length _ _ _ Hc). apply nth_error_Some. congruence.
+  Qed.
+
+  (* ---------- 1. new ---------- *)
+
+  Lemma trodeo_new_inv cap lim : 0 < cap -> TInv (trodeo_new cap lim) [].
+  Proof.
+    intros H. apply TInv_TW. exists []. unfold TW, trodeo_new; simpl.
+    split; [now apply arena_new_inv|]. split; [|split].
+    - repeat split; try constructor.
+    - unfold maps_ok; simpl. split; [constructor|]. split; [|split; [constructor|]].
+      + intros k r. split; [intros []|]. destruct (N.to_nat k); discriminate.
+      + intros r k. split; intros [].
+    - lia.
+  Qed.
+
+  (* ---------- 2. lookups ---------- *)
+
+  Lemma t_ref_spec t cs refs k : TW t cs refs -> t_ref t k = nth_error refs (N.to_nat k).
+  Proof.
+    intros (_ & _ & (H1 & H2 & _) & _). unfold t_ref.
+    destruct (find _ (tstrs t)) as [(k0 & r)|] eqn:Ef.
+    - apply find_some in Ef as (Hin & Hk). simpl in Hk. apply N.eqb_eq in Hk. subst k0.
+      apply H2 in Hin. simpl. now rewrite Hin.
+    - destruct (nth_error refs (N.to_nat k)) as [r|] eqn:E; auto.
+      apply H2 in E. eapply find_none in Ef; eauto. simpl in Ef.
+      rewrite N.eqb_refl in Ef. discriminate.
+  Qed.
+
+  Lemma t_resolve_spec t cs refs k : TW t cs refs -> t_resolve t k = nth_error cs (N.to_nat k).
+  Proof.
+    intros H. unfold t_resolve. rewrite (t_ref_spec _ _ _ k H).
+    destruct H as (_ & (_ & _ & Hc & _) & _).
+    rewrite <- (key_str_contents _ _ _ k Hc). reflexivity.
+  Qed.
+
+  Lemma t_len_spec t cs refs : TW t cs refs -> t_len t = N.of_nat (length cs).
+  Proof.
+    intros (_ & (_ & _ & Hc & _) & Hm & _). unfold t_len.
+    rewrite (maps_length _ _ _ Hm), (contents_length _ _ _ Hc). reflexivity.
+  Qed.
+
+  Lemma t_get_spec t cs refs s : TW t cs refs -> t_get t s = index_of s cs.
+  Proof.
+    intros (_ & (_ & _ & Hc & Hnd) & (H1 & H2 & H3 & H4) & _). unfold t_get.
+    set (p := fun e : sref * N => _).
+    assert (Hp : forall r k, In (r, k) (tmap t) -> p (r, k) = true -> index_of s cs = Some k).
+    { intros r k Hin Hpk. apply H4, H2 in Hin. destruct (read_refs _ _ _ _ _ Hc Hin) as (Hr & _).
+      unfold p in Hpk. simpl in Hpk. rewrite Hr in Hpk.
+      destruct (nth_error cs (N.to_nat k)) as [s'|] eqn:E; [|discriminate].
+      apply str_eqb_eq in Hpk. subst s'. now apply index_of_nodup. }
+    destruct (find p (tmap t)) as [(r & k)|] eqn:Ef.
+    - apply find_some in Ef as (Hin & Hpk). simpl. symmetry. eauto.
+    - destruct (index_of s cs) as [i|] eqn:Ei; auto. exfalso.
+      apply index_of_some in Ei as (Hn & Hi).
+      destruct (nth_error refs (N.to_nat i)) as [r|] eqn:Er.
+      + pose proof Er as Hin. apply H2, H4 in Hin.
+        eapply find_none in Ef; eauto. unfold p in Ef. simpl in Ef.
+        destruct (read_refs _ _ _ _ _ Hc Er) as (Hr & _).
+        rewrite Hr, Hn, str_eqb_refl in Ef. discriminate.
+      + apply nth_error_None in Er. rewrite <- (contents_length _ _ _ Hc) in Er. lia.
+  Qed.
+
+  (* the same, stated on TInv *)
+  Theorem t_get_inv t cs s : TInv t cs -> t_get t s = index_of s cs.
+  Proof. intros H. apply TInv_TW in H as (refs & H). eapply t_get_spec; eauto. Qed.
+
+  Theorem t_resolve_inv t cs k : TInv t cs -> t_resolve t k = nth_error cs (N.to_nat k).
+  Proof. intros H. apply TInv_TW in H as (refs & H). eapply t_resolve_spec; eauto. Qed.
+
+  Corollary t_resolve_oob t cs k : TInv t cs -> N.of_nat (length cs) <= k -> t_resolve t k = None.
+  Proof.
+    intros H Hk. rewrite (t_resolve_inv _ _ _ H). apply nth_error_None. lia.
+  Qed.
+
+  Theorem t_len_inv t cs : TInv t cs -> t_len t = N.of_nat (length cs).
+  Proof. intros H. apply TInv_TW in H as (refs & H). eapply t_len_spec; eauto. Qed.
+
+  (* contains_key: a key is present exactly when it is below the length *)
+  Theorem t_ref_inv t cs k :
+    TInv t cs ->
+    exists refs, TW t cs refs /\ t_ref t k = nth_error refs (N.to_nat k) /\
+                 length refs = length cs /\
+                 (k < N.of_nat (length cs) <-> t_ref t k <> None).
+  Proof.
+    intros H. apply TInv_TW in H as (refs & H). exists refs.
+    pose proof (t_ref_spec _ _ _ k H) as Hr. split; auto. split; auto.
+    destruct H as (_ & (_ & _ & Hc & _) & _). pose proof (contents_length _ _ _ Hc) as Hl.
+    split; auto. rewrite Hr, nth_error_Some. lia.
+  Qed.
+
+  (* ---------- the counter ---------- *)
+
+  Lemma counter_lt t (cs : list str) :
+    N.of_nat (length cs) = N.min (tkey t) keycap -> tkey t < keycap -> tkey t = N.of_nat (length cs).
+  Proof. lia. Qed.
+
+  Lemma counter_ge t (cs : list str) :
+    N.of_nat (length cs) = N.min (tkey t) keycap -> keycap <= tkey t -> N.of_nat (length cs) = keycap.
+  Proof. lia. Qed.
+
+  Theorem TInv_len_le_keycap t cs : TInv t cs -> N.of_nat (length cs) <= keycap.
+  Proof. intros (_ & refs & _ & _ & _ & _ & _ & H). lia. Qed.
+
+  (* ---------- inserting the next key into both maps ---------- *)
+
+  Lemma strs_insert_fresh k r ts : ~ In k (map fst ts) -> strs_insert k r ts = ts ++ [(k, r)].
+  Proof.
+    intros H. unfold strs_insert. rewrite filter_all; auto. intros (k0 & r0) Hin. simpl.
+    destruct (k0 =? k) eqn:E; auto. apply N.eqb_eq in E. subst. exfalso. apply H.
+    apply in_map_iff. exists (k, r0). auto.
+  Qed.
+
+  Lemma maps_ok_push tm ts refs ref k :
+    maps_ok tm ts refs -> k = N.of_nat (length refs) ->
+    maps_ok (tm ++ [(ref, k)]) (strs_insert k ref ts) (refs ++ [ref]).
+  Proof.
+    intros Hm Hk. pose proof (maps_keys _ _ _ k Hm) as Hkeys. destruct Hm as (H1 & H2 & H3 & H4).
+    assert (Hfresh : ~ In k (map fst ts)). { rewrite Hkeys. subst k. rewrite Nat2N.id. lia. }
+    rewrite strs_insert_fresh by auto.
+    split; [|split; [|split]].
+    - rewrite map_app. simpl. apply NoDup_app_snoc; auto.
+    - intros k' r. rewrite in_app_iff. simpl. split.
+      + intros [Hin|[Heq|[]]].
+        * apply H2 in Hin. rewrite nth_error_app1; auto. apply nth_error_Some. congruence.
+        * injection Heq as <- <-. rewrite Hk, Nat2N.id, nth_error_app2, Nat.sub_diag by lia.
+          reflexivity.
+      + intros Hn. destruct (Nat.lt_ge_cases (N.to_nat k') (length refs)) as [Hlt|Hge].
+        * rewrite nth_error_app1 in Hn by auto. left. now apply H2.
+        * rewrite nth_error_app2 in Hn by auto. right. left.
+          destruct (N.to_nat k' - length refs)%nat as [|m] eqn:Em; simpl in Hn.
+          -- injection Hn as <-. f_equal. lia.
+          -- destruct m; discriminate.
+    - rewrite map_app. simpl. apply NoDup_app_snoc; auto.
+      intros Hin. apply in_map_iff in Hin as ((r0 & k0) & Hk0 & Hin). simpl in Hk0. subst k0.
+      apply H4 in Hin. apply Hfresh. apply in_map_iff. exists (k, r0). auto.
+    - intros r k'. rewrite !in_app_iff. simpl. rewrite H4.
+      split; (intros [H|[H|[]]]; [now left|right; left; injection H as <- <-; reflexivity]).
+  Qed.
+
+  (* ---------- 3. try_get_or_intern ---------- *)
+
+  Inductive t_outcome (t : trodeo) (cs : list str) (s : str) (t' : trodeo) (R : res N) : Prop :=
+  | to_present k :
+      index_of s cs = Some k -> t' = t -> R = Ok k -> t_outcome t cs s t' R
+  | to_memory :
+      (* the store comes first: this answer does not depend on the key space *)
+      index_of s cs = None -> t' = t -> R = Err MemoryLimitReached -> s <> [] ->
+      limit (tar t) < usage (tar t) + slen s -> t_outcome t cs s t' R
+  | to_keys ref :
+      (* the string was stored (and stays in the arena), then the draw failed *)
+      index_of s cs = None -> R = Err KeySpaceExhaustion -> keycap <= N.of_nat (length cs) ->
+      TInv t' cs -> (forall refs, TW t cs refs -> TW t' cs refs) ->
+      tmap t' = tmap t -> tstrs t' = tstrs t -> tkey t' = tkey t + 1 ->
+      store_post (tar t) (tar t') s (Ok ref) -> usage (tar t) <= usage (tar t') ->
+      t_outcome t cs s t' R
+  | to_new ref :
+      index_of s cs = None -> R = Ok (N.of_nat (length cs)) -> N.of_nat (length cs) < keycap ->
+      TInv t' (cs ++ [s]) -> (forall refs, TW t cs refs -> TW t' (cs ++ [s]) (refs ++ [ref])) ->
+      store_post (tar t) (tar t') s (Ok ref) -> tkey t' = tkey t + 1 ->
+      t_outcome t cs s t' R.
+
+  Theorem t_intern_spec t cs s t' R :
+    TInv t cs -> t_intern t s = (t', R) -> t_outcome t cs s t' R.
+  Proof.
+    intros Hinv Hi. apply TInv_TW in Hinv as (refs0 & HW0).
+    pose proof (t_get_spec _ _ _ s HW0) as Hget.
+    unfold Rodeo.t_intern in Hi. rewrite Hget in Hi.
+    destruct (index_of s cs) as [k|] eqn:Ei.
+    - inversion Hi; subst. eapply to_present; eauto.
+    - pose proof HW0 as (Ha & _ & _ & Hcnt0).
+      destruct (lf_store (tar t) s) as [a' [ref|e]] eqn:Est.
+      + pose proof (lf_store_post _ _ _ _ Ha Est) as Hpost.
+        unfold try_key in Hi. destruct (tkey t <? keycap) eqn:Ek.
+        * apply N.ltb_lt in Ek. inversion Hi; subst t' R; clear Hi.
+          assert (Hkey : tkey t = N.of_nat (length cs)) by lia.
+          match goal with |- t_outcome _ _ _ ?T _ => set (t' := T) end.
+          assert (HW' : forall refs, TW t cs refs -> TW t' (cs ++ [s]) (refs ++ [ref])).
+          { intros refs (_ & Hs & Hm & Hcnt). split; [exact (sp_inv _ _ _ _ Hpost)|].
+            unfold t'; cbn [tar tmap tstrs tkey]. split; [|split].
+            - eapply strs_ok_push; eauto. now apply index_of_none.
+            - apply maps_ok_push; auto. rewrite Hkey.
+              destruct Hs as (_ & _ & Hc & _). now rewrite (contents_length _ _ _ Hc).
+            - rewrite app_length. simpl. lia. }
+          eapply to_new with (ref := ref); eauto.
+          -- now rewrite Hkey.
+          -- lia.
+          -- apply TInv_TW. eauto.
+        * apply N.ltb_ge in Ek. inversion Hi; subst t' R; clear Hi.
+          match goal with |- t_outcome _ _ _ ?T _ => set (t' := T) end.
+          assert (HW' : forall refs, TW t cs refs -> TW t' cs refs).
+          { intros refs (_ & Hs & Hm & Hcnt). split; [exact (sp_inv _ _ _ _ Hpost)|].
+            unfold t'; cbn [tar tmap tstrs tkey]. split; [|split]; auto.
+            - eapply strs_ok_frame; eauto. exact (sp_frame _ _ _ _ Hpost).
+            - lia. }
+          eapply to_keys with (ref := ref); eauto.
+          -- lia.
+          -- apply TInv_TW. eauto.
+          -- exact (proj1 (sp_usage _ _ _ _ Hpost)).
+      + pose proof (lf_store_post _ _ _ _ Ha Est) as Hpost.
+        destruct (sp_result _ _ _ _ Hpost) as (He & Haa & Hsne & Hlim). subst e a'.
+        inversion Hi; subst t' R. rewrite trodeo_eta.
+        eapply to_memory; eauto.
+  Qed.
+
+  (* ---------- 4. try_get_or_intern_static ---------- *)
+
+  Inductive t_static_outcome (t : trodeo) (cs : list str) (addr : N) (s : str)
+            (t' : trodeo) (R : res N) : Prop :=
+  | ts_present k :
+      index_of s cs = Some k -> t' = t -> R = Ok k -> t_static_outcome t cs addr s t' R
+  | ts_keys :
+      index_of s cs = None -> R = Err KeySpaceExhaustion -> keycap <= N.of_nat (length cs) ->
+      TInv t' cs -> (forall refs, TW t cs refs -> TW t' cs refs) ->
+      tmap t' = tmap t -> tstrs t' = tstrs t -> tkey t' = tkey t + 1 -> tar t' = tar t ->
+      t_static_outcome t cs addr s t' R
+  | ts_new :
+      index_of s cs = None -> R = Ok (N.of_nat (length cs)) -> N.of_nat (length cs) < keycap ->
+      TInv t' (cs ++ [s]) ->
+      (forall refs, TW t cs refs -> TW t' (cs ++ [s]) (refs ++ [RStatic addr s])) ->
+      tar t' = tar t -> tkey t' = tkey t + 1 ->
+      t_static_outcome t cs addr s t' R.
+
+  Theorem t_intern_static_spec t cs addr s t' R :
+    TInv t cs -> t_intern_static t addr s = (t', R) -> t_static_outcome t cs addr s t' R.
+  Proof.
+    intros Hinv Hi. apply TInv_TW in Hinv as (refs0 & HW0).
+    pose proof (t_get_spec _ _ _ s HW0) as Hget.
+    unfold Rodeo.t_intern_static in Hi. rewrite Hget in Hi.
+    destruct (index_of s cs) as [k|] eqn:Ei.
+    - inversion Hi; subst. eapply ts_present; eauto.
+    - pose proof HW0 as (Ha & _ & _ & Hcnt0).
+      unfold try_key in Hi. destruct (tkey t <? keycap) eqn:Ek.
+      + apply N.ltb_lt in Ek. inversion Hi; subst t' R; clear Hi.
+        assert (Hkey : tkey t = N.of_nat (length cs)) by lia.
+        match goal with |- t_static_outcome _ _ _ _ ?T _ => set (t' := T) end.
+        assert (HW' : forall refs, TW t cs refs -> TW t' (cs ++ [s]) (refs ++ [RStatic addr s])).
+        { intros refs (_ & Hs & Hm & Hcnt). split; [exact Ha|].
+          unfold t'; cbn [tar tmap tstrs tkey]. split; [|split].
+          - apply strs_ok_push_static; auto. now apply index_of_none.
+          - apply maps_ok_push; auto. rewrite Hkey.
+            destruct Hs as (_ & _ & Hc & _). now rewrite (contents_length _ _ _ Hc).
+          - rewrite app_length. simpl. lia. }
+        eapply ts_new; eauto.
+        * now rewrite Hkey.
+        * lia.
+        * apply TInv_TW. eauto.
+      + apply N.ltb_ge in Ek. inversion Hi; subst t' R; clear Hi.
+        match goal with |- t_static_outcome _ _ _ _ ?T _ => set (t' := T) end.
+        assert (HW' : forall refs, TW t cs refs -> TW t' cs refs).
+        { intros refs (_ & Hs & Hm & Hcnt). split; [exact Ha|].
+          unfold t'; cbn [tar tmap tstrs tkey]. split; [|split]; auto. lia. }
+        eapply ts_keys; eauto.
+        * lia.
+        * apply TInv_TW. eauto.
+  Qed.
+
+  (* what a caller that only tracks the abstract list needs *)
+  Corollary t_intern_inv t cs s t' R :
+    TInv t cs -> t_intern t s = (t', R) ->
+    (TInv t' cs /\ (index_of s cs <> None \/ exists e, R = Err e)) \/
+    (TInv t' (cs ++ [s]) /\ index_of s cs = None /\ R = Ok (N.of_nat (length cs))).
+  Proof.
+    intros Hinv Hi. destruct (t_intern_spec _ _ _ _ _ Hinv Hi).
+    - left. subst. split; auto. left. congruence.
+    - left. subst. split; eauto.
+    - left. split; eauto.
+    - right. auto.
+  Qed.
+
+  Corollary t_intern_static_inv t cs addr s t' R :
+    TInv t cs -> t_intern_static t addr s = (t', R) ->
+    (TInv t' cs /\ (index_of s cs <> None \/ exists e, R = Err e)) \/
+    (TInv t' (cs ++ [s]) /\ index_of s cs = None /\ R = Ok (N.of_nat (length cs))).
+  Proof.
+    intros Hinv Hi. destruct (t_intern_static_spec _ _ _ _ _ _ Hinv Hi).
+    - left. subst. split; auto. left. congruence.
+    - left. split; eauto.
+    - right. auto.
+  Qed.
+
+  (* ---------- 5. set_memory_limits ---------- *)
+
+  Lemma t_set_limit_inv t cs m : TInv t cs -> TInv (t_set_limit t m) cs.
+  Proof.
+    intros (Ha & refs & Hs & H). unfold ThreadedInv.TInv, t_set_limit; simpl.
+    split; [exact Ha|]. exists refs. split; auto.
+  Qed.
+
+  (* ---------- 6. views: into_resolver / into_reader ---------- *)
+
+  (* scatter writes every pair of a duplicate-free, in-range key -> value list into its slot
+     and touches nothing else *)
+  Lemma scatter_spec l : forall acc,
+    NoDup (map fst l) ->
+    (forall k, In k (map fst l) -> (N.to_nat k < length acc)%nat) ->
+    exists acc', scatter l acc = Some acc' /\ length acc' = length acc /\
+      (forall k r, In (k, r) l -> nth_error acc' (N.to_nat k) = Some (Some r)) /\
+      (forall i, ~ In (N.of_nat i) (map fst l) -> nth_error acc' i = nth_error acc i).
+  Proof.
+    induction l as [|(k & r) l IH]; intros acc Hnd Hlt.
+    - exists acc. simpl. split; auto. split; auto. split; [intros k r []|auto].
+    - simpl in Hnd. inversion Hnd as [|x y Hnotin Hnd']; subst.
+      assert (Hk : (N.to_nat k < length acc)%nat) by (apply Hlt; now left).
+      cbn [scatter].
+      replace (k <? N.of_nat (length acc)) with true by (symmetry; apply N.ltb_lt; lia).
+      assert (Hlt' : forall k', In k' (map fst l) ->
+                (N.to_nat k' < length (set_nth (N.to_nat k) (Some r) acc))%nat).
+      { intros k' Hk'. rewrite set_nth_length. apply Hlt. now right. }
+      destruct (IH (set_nth (N.to_nat k) (Some r) acc) Hnd' Hlt') as (acc' & Hsc & Hlen & Hin & Hout).
+      exists acc'. split; auto. rewrite set_nth_length in Hlen. split; auto. split.
+      + intros k' r' [Heq|Hin'].
+        * injection Heq as <- <-. rewrite Hout by (rewrite N2Nat.id; exact Hnotin).
+          now apply nth_error_set_nth_eq.
+        * now apply Hin.
+      + intros i Hi. simpl in Hi. rewrite Hout by (intros Hx; apply Hi; right; exact Hx). apply nth_error_set_nth_neq.
+        intros Heq. apply Hi. left. lia.
+  Qed.
+
+  (* into_resolver: the dense table is exactly the witness of the invariant *)
+  Theorem t_strings_spec t cs refs : TW t cs refs -> t_strings t = Some refs.
+  Proof.
+    intros HW. pose proof HW as (_ & _ & Hm & _). pose proof (maps_length _ _ _ Hm) as Hlen.
+    pose proof Hm as (H1 & H2 & _).
+    unfold t_strings.
+    assert (Hlt : forall k, In k (map fst (tstrs t)) ->
+              (N.to_nat k < length (repeat (@None sref) (length (tstrs t))))%nat).
+    { intros k Hk. rewrite repeat_length, Hlen. eapply maps_keys; eauto. }
+    destruct (scatter_spec (tstrs t) (repeat None (length (tstrs t))) H1 Hlt)
+      as (acc & Hsc & Hl & Hin & _).
+    rewrite Hsc. rewrite repeat_length in Hl.
+    replace acc with (map Some refs); [apply all_some_map_Some|].
+    apply nth_error_ext_eq. intros i. rewrite nth_error_map.
+    destruct (nth_error refs i) as [r|] eqn:E; simpl.
+    - rewrite <- (Nat2N.id i) in E. apply H2, Hin in E. rewrite Nat2N.id in E. now rewrite E.
+    - symmetry. apply nth_error_None. apply nth_error_None in E. lia.
+  Qed.
+
+  Theorem t_strings_inv t cs :
+    TInv t cs -> exists refs, t_strings t = Some refs /\ strs_ok refs (tar t) cs.
+  Proof.
+    intros H. apply TInv_TW in H as (refs & H). exists refs. split.
+    - eapply t_strings_spec; eauto.
+    - apply H.
+  Qed.
+
+  (* every entry of a (partial) table is filed under the hash of its key's string *)
+  Definition filed (tb : table) (cs : list str) : Prop :=
+    forall h k, In (h, k) tb -> exists s, nth_error cs (N.to_nat k) = Some s /\ h = hash s.
+
+  (* rebuild inserts each (reference, key) pair once; no lookup ever hits, because the keys
+     still to come are not in the partial table and the contents are pairwise different *)
+  Lemma rebuild_spec refs a cs :
+    contents refs a = Some cs -> NoDup cs ->
+    forall l tb,
+    NoDup (map snd l) ->
+    (forall r k, In (r, k) l -> nth_error refs (N.to_nat k) = Some r) ->
+    NoDup (map snd tb) -> filed tb cs ->
+    (forall k, In k (map snd tb) -> ~ In k (map snd l)) ->
+    exists tb', rebuild l refs a tb = Some tb' /\ NoDup (map snd tb') /\ filed tb' cs /\
+                (forall k, In k (map snd tb') <-> In k (map snd tb) \/ In k (map snd l)).
+  Proof.
+    intros Hc Hndc. induction l as [|(r & k) l IH]; intros tb Hnd Hrefs Hndt Hfiled Hdisj.
+    - exists tb. simpl. split; auto. split; auto. split; auto. intros k.
+      split; [intros H; left; exact H|intros [H|[]]; exact H].
+    - simpl in Hnd. inversion Hnd as [|x y Hnotin Hnd']; subst.
+      assert (Hr : nth_error refs (N.to_nat k) = Some r) by (apply Hrefs; now left).
+      destruct (read_refs _ _ _ _ _ Hc Hr) as (Hrd & Hklt).
+      destruct (nth_error cs (N.to_nat k)) as [s|] eqn:Es; [|apply nth_error_None in Es; lia].
+      cbn [Rodeo.rebuild]. rewrite Hrd.
+      assert (Hlk : tlookup tb refs a (hash s) s = None).
+      { unfold Rodeo.tlookup. destruct (find _ tb) as [(h' & k')|] eqn:Ef; auto. exfalso.
+        apply find_some in Ef as (Hin & Hp). simpl in Hp. apply andb_true_iff in Hp as (_ & Hp).
+        rewrite (key_str_contents _ _ _ _ Hc) in Hp.
+        destruct (nth_error cs (N.to_nat k')) as [s'|] eqn:Ek'; [|discriminate].
+        apply str_eqb_eq in Hp. subst s'.
+        assert (k' = k).
+        { assert (I1 : index_of s cs = Some k') by (apply index_of_nodup; auto).
+          assert (I2 : index_of s cs = Some k) by (apply index_of_nodup; auto). congruence. }
+        subst k'. apply (Hdisj k).
+        - apply in_map_iff. exists (h', k). auto.
+        - now left. }
+      rewrite Hlk.
+      set (tb1 := tinsert tb refs a (hash s) k).
+      assert (Hsnd : map snd tb1 = k :: map snd tb).
+      { unfold tb1, Rodeo.tinsert. simpl. f_equal. destruct (growf _); auto.
+        rewrite map_map. reflexivity. }
+      assert (P1 : forall r0 k0, In (r0, k0) l -> nth_error refs (N.to_nat k0) = Some r0).
+      { intros r0 k0 Hin. apply Hrefs. now right. }
+      assert (P2 : NoDup (map snd tb1)).
+      { rewrite Hsnd. constructor; auto. intros Hin. apply (Hdisj k Hin). now left. }
+      assert (P3 : filed tb1 cs).
+      { intros h0 k0 Hin. unfold tb1, Rodeo.tinsert in Hin. destruct Hin as [Heq|Hin].
+        - injection Heq as <- <-. eauto.
+        - destruct (growf _).
+          + apply in_map_iff in Hin as ((h1 & k1) & Heq & Hin). simpl in Heq.
+            injection Heq as <- <-.
+            destruct (Hfiled _ _ Hin) as (s1 & Hs1 & _). exists s1. split; auto.
+            unfold rehash. rewrite (key_str_contents _ _ _ _ Hc), Hs1. reflexivity.
+          + eauto. }
+      assert (P4 : forall k0, In k0 (map snd tb1) -> ~ In k0 (map snd l)).
+      { intros k0. rewrite Hsnd. intros [<-|Hin]; [exact Hnotin|].
+        intros Hin'. apply (Hdisj k0 Hin). now right. }
+      destruct (IH tb1 Hnd' P1 P2 P3 P4) as (tb' & Hrb & Hnd'' & Hf' & Hkeys).
+      exists tb'. split; auto. split; auto. split; auto.
+      intros k0. rewrite Hkeys, Hsnd. simpl.
+      split; [intros [[H|H]|H]|intros [H|[H|H]]]; auto.
+  Qed.
+
+  (* into_reader: the result is a well-formed RodeoReader over the same content *)
+  Theorem t_into_reader_spec t cs refs :
+    TW t cs refs ->
+    exists r, t_into_reader t = Some r /\ RodeoInv r cs /\ rstrs r = refs /\ rar r = tar t.
+  Proof.
+    intros HW. pose proof (t_strings_spec _ _ _ HW) as Hst.
+    destruct HW as (Ha & Hs & (H1 & H2 & H3 & H4) & Hcnt). pose proof Hs as (_ & _ & Hc & Hndc).
+    unfold Rodeo.t_into_reader. rewrite Hst.
+    assert (P1 : forall r k, In (r, k) (tmap t) -> nth_error refs (N.to_nat k) = Some r).
+    { intros r k Hin. now apply H2, H4. }
+    assert (P2 : NoDup (map snd (@nil (N * N)))) by constructor.
+    assert (P3 : filed [] cs) by (intros h k []).
+    assert (P4 : forall k, In k (map snd (@nil (N * N))) -> ~ In k (map snd (tmap t)))
+      by (intros k []).
+    destruct (rebuild_spec refs (tar t) cs Hc Hndc (tmap t) [] H3 P1 P2 P3 P4)
+      as (tb & Hrb & Hnd & Hf & Hkeys).
+    rewrite Hrb. eexists. split; [reflexivity|]. split; [|split]; simpl; auto.
+    split; [exact Ha|]. simpl. split; [exact Hs|]. split; [|lia].
+    split; [exact Hnd|]. split; [exact Hf|].
+    intros k Hk. apply Hkeys. right.
+    destruct (nth_error refs (N.to_nat k)) as [r|] eqn:E.
+    - apply H2, H4 in E. apply in_map_iff. exists (r, k). auto.
+    - apply nth_error_None in E. rewrite <- (contents_length _ _ _ Hc) in E. lia.
+  Qed.
+
+  Theorem t_into_reader_inv t cs :
+    TInv t cs -> exists r, t_into_reader t = Some r /\ RodeoInv r cs /\ rar r = tar t /\
+                           t_strings t = Some (rstrs r).
+  Proof.
+    intros H. apply TInv_TW in H as (refs & H).
+    destruct (t_into_reader_spec _ _ _ H) as (r & H1 & H2 & H3 & H4).
+    exists r. split; auto. split; auto. split; auto. rewrite H3. eapply t_strings_spec; eauto.
+  Qed.
+
+  (* ---------- 7. deserialisation ---------- *)
+
+  (* the entries handled so far, as (key, reference, string) triples in document order *)
+  Definition tk (x : N * sref * str) : N := fst (fst x).
+  Definition tr (x : N * sref * str) : sref := snd (fst x).
+  Definition tS (x : N * sref * str) : str := snd x.
+
+  Definition de_state (t : trodeo) (tl : list (N * sref * str)) : Prop :=
+    ArenaInv (tar t) /\
+    strs_ok (map tr tl) (tar t) (map tS tl) /\
+    tmap t = map (fun x => (tr x, tk x)) tl /\
+    tstrs t = map (fun x => (tk x, tr x)) tl.
+
+  Lemma de_loop_spec : forall rest t next tl b,
+    de_state t tl ->
+    NoDup (map tS tl ++ map fst rest) -> NoDup (map tk tl ++ map snd rest) ->
+    blocks (tar t) = [b] -> bused b + sum_N (map slen (map fst rest)) <= bcap b ->
+    exists t' tl', de_threaded_loop rest t next = DOk trodeo t' /\ de_state t' (tl ++ tl') /\
+       map (fun x => (tS x, tk x)) tl' = rest /\
+       tkey t' = fold_left (fun nx k => if nx <=? k then k + 1 else nx) (map snd rest) next.
+  Proof.
+    induction rest as [|(s & k) rest IH]; intros t next tl b Hst Hnds Hndk Hb Hroom.
+    - exists (mkT (tmap t) (tstrs t) next (tar t)), []. simpl. rewrite app_nil_r.
+      split; auto.
+    - cbn [de_threaded_loop].
+      assert (Hsum : sum_N (map slen (map fst ((s, k) :: rest))) =
+                     slen s + sum_N (map slen (map fst rest))) by reflexivity.
+      rewrite Hsum in Hroom.
+      assert (Hfit : bused b + slen s <= bcap b) by lia.
+      destruct (lf_store_head_fits (tar t) b s Hb Hfit) as (a' & ref & b' & Hst' & Hb' & Hcap' & Hused').
+      destruct Hst as (Ha & Hs & Htm & Hts).
+      pose proof (lf_store_post _ _ _ _ Ha Hst') as Hpost.
+      rewrite Hst'.
+      assert (Hnew : ~ In s (map tS tl)).
+      { cbn [map fst] in Hnds. apply NoDup_remove_2 in Hnds. intros Hin. apply Hnds.
+        apply in_or_app. now left. }
+      assert (Hknew : ~ In k (map tk tl)).
+      { cbn [map snd] in Hndk. apply NoDup_remove_2 in Hndk. intros Hin. apply Hndk.
+        apply in_or_app. now left. }
+      pose proof (strs_ok_push _ _ _ _ _ _ Hs Hpost Hnew) as Hs1.
+      pose proof (strs_ok_frame _ _ _ _ Hs (sp_frame _ _ _ _ Hpost)) as Hs0.
+      assert (Hrd : Forall (fun x => read a' (tr x) = Some (tS x)) tl).
+      { apply contents_map_iff. apply Hs0. }
+      set (x := ((k, ref), s)).
+      match goal with |- context [de_threaded_loop rest ?T ?NX] => set (t1 := T); set (nx := NX) end.
+      assert (Hst1 : de_state t1 (tl ++ [x])).
+      { unfold de_state, t1; cbn [tar tmap tstrs]. split; [exact (sp_inv _ _ _ _ Hpost)|].
+        rewrite !map_app. cbn [map]. split; [exact Hs1|]. split.
+        - f_equal. rewrite Htm. apply filter_all. intros e He.
+          apply in_map_iff in He as (y & <- & Hy). cbn [fst].
+          rewrite Forall_forall in Hrd. rewrite (Hrd y Hy).
+          destruct (str_eqb s (tS y)) eqn:E; auto. apply str_eqb_eq in E. exfalso.
+          apply Hnew. rewrite E. now apply in_map.
+        - rewrite strs_insert_fresh.
+          + now rewrite Hts.
+          + rewrite Hts, map_map. cbn [fst]. exact Hknew. }
+      assert (Hnds1 : NoDup (map tS (tl ++ [x]) ++ map fst rest)).
+      { rewrite map_app, <- app_assoc. exact Hnds. }
+      assert (Hndk1 : NoDup (map tk (tl ++ [x]) ++ map snd rest)).
+      { rewrite map_app, <- app_assoc. exact Hndk. }
+      assert (Hroom1 : bused b' + sum_N (map slen (map fst rest)) <= bcap b') by lia.
+      destruct (IH t1 nx (tl ++ [x]) b' Hst1 Hnds1 Hndk1 Hb' Hroom1)
+        as (t' & tl' & Hloop & Hst'' & Hrest & Hkey).
+      exists t', (x :: tl'). split; [exact Hloop|]. split; [|split].
+      + rewrite <- app_assoc in Hst''. exact Hst''.
+      + cbn [map]. now rewrite Hrest.
+      + exact Hkey.
+  Qed.
+
+  Lemma doc_bytes_pos l : 0 < doc_bytes l /\ sum_N (map slen l) <= doc_bytes l.
+  Proof.
+    unfold doc_bytes. destruct (sum_N (map slen l) =? 0) eqn:E.
+    - apply N.eqb_eq in E. unfold default_bytes. lia.
+    - apply N.eqb_neq in E. lia.
+  Qed.
+
+  (* Deserialize for ThreadedRodeo.  [Hkeys] says that the keys on the wire are values of the
+     key type (serde could not have produced them otherwise). *)
+  Theorem de_threaded_ok l :
+    NoDup (map fst l) -> (forall s k, In (s, k) l -> k < keycap) ->
+    keys_dense l (repeat false (length l)) = true ->
+    exists t cs, de_threaded l = DOk trodeo t /\ TInv t cs /\ length cs = length l /\
+                 (forall s k, nth_error cs (N.to_nat k) = Some s <-> In (s, k) l) /\
+                 tkey t = N.of_nat (length l).
+  Proof.
+    intros Hnds Hkeys Hdense.
+    unfold de_threaded, de_threaded_gen. rewrite Hdense. cbn [negb andb].
+    apply keys_dense_init in Hdense as (Hndk & Hklt).
+    destruct (doc_bytes_pos (map fst l)) as (Hpos & Hsum).
+    set (cap := doc_bytes (map fst l)) in *.
+    assert (Hst0 : de_state (trodeo_new cap usize_max) []).
+    { unfold de_state, trodeo_new; simpl. split; [now apply arena_new_inv|].
+      split; auto. repeat split; try constructor. }
+    assert (Hroom : bused (fresh_block 0 cap) + sum_N (map slen (map fst l)) <= bcap (fresh_block 0 cap))
+      by (simpl; lia).
+    destruct (de_loop_spec l (trodeo_new cap usize_max) 0 [] (fresh_block 0 cap) Hst0 Hnds Hndk
+                           eq_refl Hroom) as (t & tl & Hloop & Hst & Hl & Hkey).
+    rewrite Hloop. simpl in Hst.
+    assert (Hks : map snd l = map tk tl) by (rewrite <- Hl, map_map; reflexivity).
+    assert (Hlen : length tl = length l) by (rewrite <- Hl, map_length; reflexivity).
+    rewrite Hks in Hndk, Hklt, Hkey.
+    pose proof (dense_keys_perm _ Hndk) as Hperm. rewrite map_length in Hperm.
+    assert (Hklt' : forall k, In k (map tk tl) -> (N.to_nat k < length tl)%nat)
+      by (intros k Hk; rewrite Hlen; auto).
+    specialize (Hperm Hklt').
+    destruct (Permutation_map_inv tk _ (Permutation_sym Hperm)) as (tl3 & Hsorted & Hp3).
+    (* the counter *)
+    assert (Hcount : tkey t = N.of_nat (length tl)).
+    { destruct (next_key_spec _ _ _ (eq_sym Hkey)) as (_ & Hub & Hlast).
+      destruct (length tl) as [|n] eqn:En.
+      - destruct tl; [|discriminate]. destruct Hlast as [H|(_ & [])]. exact H.
+      - assert (Hin : In (N.of_nat n) (map tk tl)).
+        { eapply Permutation_in; [apply Permutation_sym; exact Hperm|].
+          apply in_map. apply in_seq. lia. }
+        apply Hub in Hin. destruct Hlast as [H|(_ & H)]; [lia|].
+        apply Hklt' in H. lia. }
+    assert (Hcap : N.of_nat (length tl) <= keycap).
+    { destruct (length tl) as [|n] eqn:En; [lia|].
+      assert (Hin : In (N.of_nat n) (map tk tl)).
+      { eapply Permutation_in; [apply Permutation_sym; exact Hperm|].
+        apply in_map. apply in_seq. lia. }
+      rewrite <- Hks in Hin. apply in_map_iff in Hin as ((s0 & k0) & Hk0 & Hin0). simpl in Hk0.
+      subst k0. apply Hkeys in Hin0. lia. }
+    destruct Hst as (Ha & Hs & Htm & Hts).
+    exists t, (map tS tl3).
+    assert (Hlook : forall {B} (g : N * sref * str -> B) k b,
+              In (k, b) (map (fun x => (tk x, g x)) tl) <->
+              nth_error (map g tl3) (N.to_nat k) = Some b).
+    { intros B g k b. rewrite (perm_in_iff (fun x => (tk x, g x)) tl tl3 (k, b) Hp3).
+      eapply sorted_lookup. symmetry. exact Hsorted. }
+    split; [reflexivity|]. split; [|split; [|split]].
+    - apply TInv_TW. exists (map tr tl3). split; [exact Ha|]. split; [|split].
+      + eapply strs_ok_perm; eauto.
+      + rewrite Htm, Hts. split; [|split; [|split]].
+        * rewrite map_map. exact Hndk.
+        * intros k r. apply Hlook.
+        * rewrite map_map. exact Hndk.
+        * intros r k. rewrite !in_map_iff.
+          split; intros (y & Heq & Hy); exists y; (split; [|exact Hy]);
+            injection Heq as <- <-; reflexivity.
+      + rewrite map_length, <- (Permutation_length Hp3), Hcount. lia.
+    - rewrite map_length, <- (Permutation_length Hp3). exact Hlen.
+    - intros s k. rewrite <- Hlook, <- Hl, !in_map_iff.
+      split; intros (y & Heq & Hy); exists y; (split; [|exact Hy]);
+        injection Heq as <- <-; reflexivity.
+    - now rewrite Hcount, Hlen.
+  Qed.
+
+  (* the complete case analysis: an error exactly for the documents whose keys are not a
+     permutation of 0..n-1, never a panic *)
+  Theorem de_threaded_spec l :
+    NoDup (map fst l) -> (forall s k, In (s, k) l -> k < keycap) ->
+    (de_threaded l = DErr trodeo <-> keys_dense l (repeat false (length l)) = false) /\
+    (keys_dense l (repeat false (length l)) = true ->
+       exists t cs, de_threaded l = DOk trodeo t /\ TInv t cs /\ length cs = length l /\
+                    (forall s k, nth_error cs (N.to_nat k) = Some s <-> In (s, k) l) /\
+                    tkey t = N.of_nat (length l)) /\
+    de_threaded l <> DPanic trodeo.
+  Proof.
+    intros Hnds Hkeys.
+    destruct (keys_dense l (repeat false (length l))) eqn:E.
+    - destruct (de_threaded_ok l Hnds Hkeys E) as (t & cs & Hde & Hrest).
+      split; [|split].
+      + rewrite Hde. split; discriminate.
+      + intros _. exists t, cs. split; auto.
+      + rewrite Hde. discriminate.
+    - assert (Hde : de_threaded l = DErr trodeo).
+      { unfold de_threaded, de_threaded_gen. rewrite E. reflexivity. }
+      split; [|split].
+      + split; auto.
+      + discriminate.
+      + rewrite Hde. discriminate.
+  Qed.
+
+  (* ---------- 8. PartialEq ---------- *)
+
+  Theorem eq_threaded_threaded t u cs cs' :
+    TInv t cs -> TInv u cs' ->
+    exists b, eq_obj (OThreaded t) (OThreaded u) = Some b /\ (b = true <-> cs = cs').
+  Proof.
+    intros Ht Hu. apply TInv_TW in Ht as (refs & Ht).
+    pose proof (t_len_spec _ _ _ Ht) as Hlt. pose proof (t_len_inv _ _ Hu) as Hlu.
+    cbn [Rodeo.eq_obj]. eexists. split; [reflexivity|].
+    rewrite Hlt, Hlu, andb_true_iff, N.eqb_eq, forallb_forall.
+    destruct Ht as (_ & (_ & _ & Hc & _) & (H1 & H2 & _) & _).
+    pose proof (contents_length _ _ _ Hc) as Hlr.
+    split.
+    - intros (Hlen & Hall). apply list_eq_nth; [lia|]. intros i Hi.
+      destruct (nth_error refs i) as [r|] eqn:Er; [|apply nth_error_None in Er; lia].
+      rewrite <- (Nat2N.id i) in Er. pose proof Er as Hin. apply H2 in Hin.
+      specialize (Hall _ Hin). cbn [fst snd] in Hall.
+      destruct (read_refs _ _ _ _ _ Hc Er) as (Hrd & _).
+      rewrite Hrd, (t_resolve_inv _ _ _ Hu) in Hall. rewrite Nat2N.id in Hall.
+      destruct (nth_error cs i) as [s|]; [|discriminate].
+      destruct (nth_error cs' i) as [s'|]; [|discriminate].
+      apply str_eqb_eq in Hall. now subst.
+    - intros <-. split; auto. intros (k & r) Hin. cbn [fst snd]. apply H2 in Hin.
+      destruct (read_refs _ _ _ _ _ Hc Hin) as (Hrd & Hk).
+      rewrite Hrd, (t_resolve_inv _ _ _ Hu).
+      destruct (nth_error cs (N.to_nat k)) as [s|] eqn:E;
+        [apply str_eqb_refl|apply nth_error_None in E; lia].
+  Qed.
+
+  Lemma eq_list_bool t cs (cs' : list str) :
+    TInv t cs -> N.of_nat (length cs') <= keycap ->
+    ((t_len t =? N.of_nat (length cs')) &&
+     forallb (fun p : N * str =>
+                match try_key keycap (fst p) with
+                | Some k => match t_resolve t k with
+                            | Some s' => str_eqb s' (snd p)
+                            | None => false
+                            end
+                | None => false
+                end)
+             (combine (map N.of_nat (seq 0 (length cs'))) cs')) = true <-> cs = cs'.
+  Proof.
+    intros Ht Hcap. rewrite (t_len_inv _ _ Ht), andb_true_iff, N.eqb_eq, forallb_forall.
+    split.
+    - intros (Hlen & Hall). apply list_eq_nth; [lia|]. intros i Hi.
+      destruct (nth_error cs' i) as [s'|] eqn:E'; [|apply nth_error_None in E'; lia].
+      assert (Hin : In (N.of_nat i, s') (combine (map N.of_nat (seq 0 (length cs'))) cs')).
+      { apply in_combine_seq. exists i. auto. }
+      apply Hall in Hin. cbn [fst snd] in Hin. unfold try_key in Hin.
+      replace (N.of_nat i <? keycap) with true in Hin by (symmetry; apply N.ltb_lt; lia).
+      rewrite (t_resolve_inv _ _ _ Ht), Nat2N.id in Hin.
+      destruct (nth_error cs i) as [s|]; [|discriminate]. apply str_eqb_eq in Hin. now subst.
+    - intros <-. split; auto. intros (k & s') Hin.
+      apply in_combine_seq in Hin as (i & Hk & Hi). simpl in Hk. subst k.
+      cbn [fst snd]. unfold try_key.
+      assert (Hlt : (i < length cs)%nat) by (apply nth_error_Some; congruence).
+      replace (N.of_nat i <? keycap) with true by (symmetry; apply N.ltb_lt; lia).
+      rewrite (t_resolve_inv _ _ _ Ht), Nat2N.id, Hi. apply str_eqb_refl.
+  Qed.
+
+  (* ThreadedRodeo == Rodeo / RodeoReader / RodeoResolver *)
+  Theorem eq_threaded_list t cs y strs a cs' :
+    TInv t cs -> obj_strs y = Some (strs, a) -> contents strs a = Some cs' ->
+    N.of_nat (length cs') <= keycap ->
+    exists b, eq_obj (OThreaded t) y = Some b /\ (b = true <-> cs = cs').
+  Proof.
+    intros Ht Hy Hc' Hcap.
+    destruct y; simpl in Hy; try discriminate; injection Hy as <- <-;
+      cbn [Rodeo.eq_obj obj_strs]; rewrite Hc'; eexists; (split; [reflexivity|]);
+      apply eq_list_bool; auto.
+  Qed.
+
+End Proofs.
+
+(* ---------- the two refutations of the unrepaired deserialiser (key type Spur) ---------- *)
+
+Definition spur_cap : N := 4294967295.
+
+(* F3: the counter is set to the highest key instead of one above it; the next interned
+   string is handed the key of "b" *)
+Example F3_legacy_counter :
+  match de_threaded_gen true false [([97], 0); ([98], 1)] with
+  | DOk _ t => tkey t = 1 /\ t_resolve t 1 = Some [98] /\
+               snd (t_intern spur_cap t [99]) = Ok 1
+  | _ => False
+  end.
+Proof. vm_compute. auto. Qed.
+
+(* ... the repaired code continues with a fresh key *)
+Example F3_repaired_counter :
+  match de_threaded [([97], 0); ([98], 1)] with
+  | DOk _ t => tkey t = 2 /\ snd (t_intern spur_cap t [99]) = Ok 2
+  | _ => False
+  end.
+Proof. vm_compute. auto. Qed.
+
+(* F4: without the key check a sparse document is accepted and the view conversion faults *)
+Example F4_legacy_sparse_keys :
+  match de_threaded_gen false true [([97], 0); ([98], 6)] with
+  | DOk _ t => t_strings t = None /\ t_into_reader (fun _ => 0) N.eqb (fun _ => false) t = None
+  | _ => False
+  end.
+Proof. vm_compute. auto. Qed.
+
+Example F4_repaired_sparse_keys : de_threaded [([97], 0); ([98], 6)] = DErr trodeo.
+Proof. vm_compute. reflexivity. Qed.
+
+Print Assumptions trodeo_new_inv.
+Print Assumptions t_get_inv.
+Print Assumptions t_ref_inv.
+Print Assumptions t_resolve_inv.
+Print Assumptions t_len_inv.
+Print Assumptions t_intern_spec.
+Print Assumptions t_intern_static_spec.
+Print Assumptions t_set_limit_inv.
+Print Assumptions t_strings_spec.
+Print Assumptions t_into_reader_spec.
+Print Assumptions keys_dense_perm_iff.
+Print Assumptions de_threaded_spec.
+Print Assumptions eq_threaded_threaded.
+Print Assumptions eq_threaded_list.
+Print Assumptions F3_legacy_counter.
+Print Assumptions F4_legacy_sparse_keys.
